@@ -50,18 +50,18 @@ var semverPre = pre("-alpha", "-alpha.1", "-rc.1", "-0", "-rc1", "-beta", "-beta
 // documentation gives it that direction. Spellings the parser rejects are skipped at run time.
 var c03Markers = map[string][]marker{
 	"semver": semverPre, "cargo": semverPre, "npm": semverPre, "golang": semverPre, "hex": semverPre, "nuget": semverPre,
-	"conan":      pre("-alpha", "-alpha.1", "-rc.1", "-0", "-rc1", "-beta"),
-	"pypi":       cat(pre("a1", "b1", "rc1", ".a1", "alpha1", "beta1", "c1", ".dev1", "dev1", ".rc2", "a0", ".dev0"), post(".post1", "post1", ".rev1", ".r1", ".post0")),
-	"debian":     cat(pre("~rc1", "~", "~~", "~1", "~a"), post("-1", "+b1", "+dfsg", "-1+b1", ".1", "a", "+")),
-	"rpm":        cat(pre("~rc1", "~", "~~", "~1"), post("-1", "^git1", "^1", "^", ".1", "a")),
-	"maven":      cat(pre("-alpha", "-alpha-1", "-beta1", "-rc1", "-RC1", "-SNAPSHOT", "-M1", ".rc1", "-milestone-2", "-cr1", "-a1", "-b2", "-m3", ".Beta", "-snapshot"), post("-sp", "-sp1", "-1", "-SP2", ".sp")),
-	"gem":        pre(".rc1", ".pre", "-rc1", ".alpha.1", "-alpha", ".a", ".beta2", ".rc", ".pre.1", "-a"),
-	"alpine":     cat(pre("_alpha", "_alpha1", "_beta", "_beta2", "_pre", "_pre1", "_rc", "_rc1"), post("_p", "_p1", "-r1", "_cvs", "_svn", "_git", "_hg", "_git20200101", "a")),
-	"gentoo":     cat(pre("_alpha", "_alpha1", "_beta", "_beta2", "_pre", "_pre1", "_rc", "_rc1"), post("_p", "_p1", "-r1", "a")),
-	"alpm":       pre("rc1", "alpha", "beta", "a", "rc", "beta2", "pre1"),
-	"apache":     pre("-alpha", "-beta", "-RC1", "-M1", "-SNAPSHOT", "-dev", "-rc2", "-milestone1", "-alpha1", "-BETA2"),
+	"conan":  pre("-alpha", "-alpha.1", "-rc.1", "-0", "-rc1", "-beta"),
+	"pypi":   cat(pre("a1", "b1", "rc1", ".a1", "alpha1", "beta1", "c1", ".dev1", "dev1", ".rc2", "a0", ".dev0"), post(".post1", "post1", ".rev1", ".r1", ".post0")),
+	"debian": cat(pre("~rc1", "~", "~~", "~1", "~a"), post("-1", "+b1", "+dfsg", "-1+b1", ".1", "a", "+")),
+	"rpm":    cat(pre("~rc1", "~", "~~", "~1"), post("-1", "^git1", "^1", "^", ".1", "a")),
+	"maven":  cat(pre("-alpha", "-alpha-1", "-beta1", "-rc1", "-RC1", "-SNAPSHOT", "-M1", ".rc1", "-milestone-2", "-cr1", "-a1", "-b2", "-m3", ".Beta", "-snapshot"), post("-sp", "-sp1", "-1", "-SP2", ".sp")),
+	"gem":    pre(".rc1", ".pre", "-rc1", ".alpha.1", "-alpha", ".a", ".beta2", ".rc", ".pre.1", "-a"),
+	"alpine": cat(pre("_alpha", "_alpha1", "_beta", "_beta2", "_pre", "_pre1", "_rc", "_rc1"), post("_p", "_p1", "-r1", "_cvs", "_svn", "_git", "_hg", "_git20200101", "a")),
+	"gentoo": cat(pre("_alpha", "_alpha1", "_beta", "_beta2", "_pre", "_pre1", "_rc", "_rc1"), post("_p", "_p1", "-r1", "a")),
+	"alpm":   pre("rc1", "alpha", "beta", "a", "rc", "beta2", "pre1"),
+	"apache": pre("-alpha", "-beta", "-RC1", "-M1", "-SNAPSHOT", "-dev", "-rc2", "-milestone1", "-alpha1", "-BETA2"),
 	// composer: patch/pl/p are not claimed (Composer's documentation gives them no order against the plain release)
-	"composer": pre("-alpha", "-alpha1", "-alpha.1", "-beta", "-beta2", "-RC1", "-rc1", "a1", "b1", "RC1", "-dev", "alpha", "beta1", "-RC", "-a1", "-b"),
+	"composer":   pre("-alpha", "-alpha1", "-alpha.1", "-beta", "-beta2", "-RC1", "-rc1", "a1", "b1", "RC1", "-dev", "alpha", "beta1", "-RC", "-a1", "-b"),
 	"github":     pre("-alpha", "-beta", "-rc.1", ".rc1", "-dev", "-snapshot", "-rc1", "-alpha.1", "-beta2", "-RC1", ".beta"),
 	"mattermost": pre("-rc1", "-rc", "-rc2", "-rc10"),
 	"cran":       nil,
